@@ -12,10 +12,23 @@
 //	(b) for a fresh GenericBuffer and one reused through Reset;
 //	(c) in another goroutine, after pool churn, with poisoned pools, with
 //	    GOMAXPROCS 1 and many;
-//	(d) for the 1st and the n-th production in one process;
+//	(d) for the 1st and the n-th production in one process, and for a
+//	    production after unrelated writes of the same goroutine (other writers
+//	    of the same configuration, other schemas, other integer combinations
+//	    and logical types: what they leave in the process-wide pools);
 //	(e) across build variants (default, purego, noavx2, simd): every variant
 //	    writes the digests of a fixed case list to <work>/digests_<variant>.json
 //	    and compares with the files of the variants that ran before it.
+//
+// Families: generated schemas (gen.Case), typed structs (optional kinds,
+// dictionary index patterns, 16-byte values), every (Go integer kind x width
+// tag) combination (ints.go, ints_types.go), the rare logical types
+// (logical.go: GEOMETRY/GEOGRAPHY, VARIANT, INTERVAL, DECIMAL, DATE, TIME,
+// TIMESTAMP, JSON, ENUM, UUID strings).
+//
+// Correspondence with the model (Reset/Ints.v): the integers stored by every
+// combination; (Reset/Geo.v): the geospatial statistics of every column chunk
+// from the values stored in its row group alone.
 //
 // Correspondence with the model (Reset/Model.v): the operation list of every
 // Reset scenario is run on the extracted state machine with opaque rows; the
@@ -443,7 +456,8 @@ func genDRows(seed int64, groups int) []dRow {
 // ---------------------------------------------------------------------------
 
 type spec struct {
-	Family  string   `json:"family"`             // gen | typed | rle | sorting | encrypted
+	Family  string   `json:"family"`             // gen | typed | rle | sorting | encrypted | be128 | opt | ints | logical
+	Combo   string   `json:"combo,omitempty"`    // ints: the (Go integer kind / width tag) combination
 	API     string   `json:"api,omitempty"`      // generic | writer
 	Case    gen.Case `json:"case"`               // gen family: the generated case; others: Seed and NRows
 	DictMax int64    `json:"dict_max,omitempty"` // DictionaryMaxBytes override (forces the fallback to PLAIN)
@@ -498,6 +512,8 @@ type factory struct {
 	mkBuffer func(sorted bool) pooledBuffer // nil when not applicable
 	mkPlain  func(sink io.Writer) pooled    // writer that receives a buffer as a row group
 	prepare  func()                         // run before every production (deterministic nonce source)
+	combo    *intCombo                      // ints family: the combination
+	intCols  func() [][]uint64              // ints family: the bit patterns of the Go values of every leaf column of the file under test
 }
 
 // ---- gen family: parquet.Row pool, GenericWriter[any] or Writer ----
@@ -787,6 +803,9 @@ func typedFactory[T any](sp spec, rows []T, n int, sortCol string, maxRows int64
 // buildPanics counts the specs that could not be built, by message (reported as a note).
 var buildPanics = map[string]int{}
 
+// panickedLives counts the previous lives that ended in a panic of the library, by message (a note).
+var panickedLives = map[string]int{}
+
 // build makes the factory of a spec. ok=false: the spec cannot be built.
 func build(sp spec) (f *factory, ok bool) {
 	defer func() {
@@ -887,6 +906,14 @@ func build(sp spec) (f *factory, ok bool) {
 		return typedFactory(sp, rows, n, "id", 0, func() []parquet.WriterOption {
 			return []parquet.WriterOption{parquet.DataPageVersion(1 + int(sp.Case.Seed&1)), parquet.PageBufferSize([]int{96, 1 << 12, 1 << 16}[uint64(sp.Case.Seed)%3])}
 		}), true
+	case "ints":
+		cb := intComboOf(sp.Combo)
+		if cb == nil {
+			return nil, false
+		}
+		return cb.mk(sp, cb), true
+	case "logical":
+		return logicalFactory(sp), true
 	case "encrypted":
 		n := sp.Case.NRows
 		rows := genTRows(sp.Case.Seed, n+sp.Extra)
@@ -1135,7 +1162,14 @@ func produceReused(f *factory, lives []life) outcome {
 				w.Reset(l.sink())
 				out.ops = append(out.ops, "r")
 			}
-			out.ops = append(out.ops, runLife(w, f, l)...)
+			// a life that ends in a panic of the library (a value the write path
+			// refuses) is a failed life like any other: Reset must recover from it
+			var lops []string
+			if p := guard(func() { lops = runLife(w, f, l) }); p != "" {
+				lops = []string{"a"}
+				panickedLives[core.Trunc(p, 120)]++
+			}
+			out.ops = append(out.ops, lops...)
 		}
 		if f.prepare != nil {
 			f.prepare()
@@ -1239,8 +1273,11 @@ func describeDiff(a, b []byte) string {
 	if ea != nil || eb != nil {
 		return s + fmt.Sprintf("; open: %v / %v", ea, eb)
 	}
-	ja, _ := json.Marshal(fa.Metadata())
-	jb, _ := json.Marshal(fb.Metadata())
+	ja, erra := json.Marshal(fa.Metadata())
+	jb, errb := json.Marshal(fb.Metadata())
+	if erra != nil || errb != nil { // infinite or NaN bounds have no JSON
+		ja, jb = []byte(fmt.Sprintf("%+v", *fa.Metadata())), []byte(fmt.Sprintf("%+v", *fb.Metadata()))
+	}
 	if !bytes.Equal(ja, jb) {
 		k := 0
 		for k < len(ja) && k < len(jb) && ja[k] == jb[k] {
@@ -1271,6 +1308,8 @@ type env struct {
 	c    *core.Ctx
 	refs map[string]outcome
 	vm   []string
+
+	geoChunks int // column chunks whose geospatial statistics were compared with the model
 }
 
 func (e *env) ref(f *factory) outcome {
@@ -1358,6 +1397,17 @@ func (e *env) checkScenario(sc scenario) bool {
 			got = a
 		}
 		class = "gomaxprocs-differs"
+	case "history":
+		// unrelated writes between the reference production and this one, in the
+		// same goroutine (the pools hand back what the last user on this P left):
+		// other writers of the same configuration write and give up / finish the
+		// rows of the previous lives, files of other schemas are written and read
+		for _, l := range sc.Lives {
+			_ = guard(func() { runLife(f.mk(l.sink()), f, l) })
+		}
+		_ = guard(func() { churnOne(sc.Spec.Case.Seed, 0) })
+		got = produceFresh(f)
+		class = "process-history-differs"
 	case "poison":
 		parquet.VerifSetPoison(true)
 		churn(sc.Spec.Case.Seed)
@@ -1394,6 +1444,15 @@ func (e *env) checkScenario(sc scenario) bool {
 			c.Violation("reset-encrypted-unreadable", fmt.Sprintf("%d rows instead of %d", n, f.n), sc)
 			return false
 		}
+	}
+	// correspondence with the model: the stored values of the integer combinations
+	// (a sorted buffer holds the rows in another order)
+	if sc.Spec.Family == "ints" && !(sc.Mode == "buffer" && sc.Sort) && !e.checkIntsModel(f, got.bytes, sc) {
+		return false
+	}
+	// ... and the geospatial statistics of every row group
+	if sc.Spec.Family == "logical" && !e.checkGeoModel(got.bytes, sc) {
+		return false
 	}
 	// correspondence with the model: row group structure of the file
 	if sc.Mode == "reset" && c.HasOracle() && sc.Spec.Family != "sorting" {
@@ -1537,39 +1596,72 @@ func churn(seed int64) {
 		go func(g int) {
 			defer wg.Done()
 			defer func() { _ = recover() }()
-			for k := 0; k < 3; k++ {
-				cs := gen.Case{Seed: seed*31 + int64(g*7+k), NRows: 60 + 40*k, MaxDepth: 2, MaxFields: 4, Codecs: allCodecs, NullBias: 3}
-				b := cs.Build()
-				var buf bytes.Buffer
-				if b.Write(&buf) != nil {
-					continue
-				}
-				f, err := parquet.OpenFile(bytes.NewReader(buf.Bytes()), int64(buf.Len()))
-				if err != nil {
-					continue
-				}
-				r := parquet.NewReader(f)
-				rows := make([]parquet.Row, 50)
-				for {
-					n, err := r.ReadRows(rows)
-					if n == 0 || err != nil {
-						break
-					}
-				}
-				r.Close()
-			}
-			rows := genTRows(seed+int64(g), 300)
-			var buf bytes.Buffer
-			w := parquet.NewGenericWriter[tRow](&buf, parquet.Compression(&parquet.Zstd), parquet.PageBufferSize(512))
-			w.Write(rows)
-			w.Close()
-			out := make([]tRow, 300)
-			rd := parquet.NewGenericReader[tRow](bytes.NewReader(buf.Bytes()))
-			rd.Read(out)
-			rd.Close()
+			churnOne(seed, g)
 		}(g)
 	}
 	wg.Wait()
+}
+
+func churnOne(seed int64, g int) {
+	for k := 0; k < 3; k++ {
+		cs := gen.Case{Seed: seed*31 + int64(g*7+k), NRows: 60 + 40*k, MaxDepth: 2, MaxFields: 4, Codecs: allCodecs, NullBias: 3}
+		b := cs.Build()
+		var buf bytes.Buffer
+		if b.Write(&buf) != nil {
+			continue
+		}
+		f, err := parquet.OpenFile(bytes.NewReader(buf.Bytes()), int64(buf.Len()))
+		if err != nil {
+			continue
+		}
+		r := parquet.NewReader(f)
+		rows := make([]parquet.Row, 50)
+		for {
+			n, err := r.ReadRows(rows)
+			if n == 0 || err != nil {
+				break
+			}
+		}
+		r.Close()
+	}
+	rows := genTRows(seed+int64(g), 300)
+	var buf bytes.Buffer
+	w := parquet.NewGenericWriter[tRow](&buf, parquet.Compression(&parquet.Zstd), parquet.PageBufferSize(512))
+	w.Write(rows)
+	w.Close()
+	out := make([]tRow, 300)
+	rd := parquet.NewGenericReader[tRow](bytes.NewReader(buf.Bytes()))
+	rd.Read(out)
+	rd.Close()
+	// typed rows of OTHER integer combinations, in batches larger than any file
+	// under test: one that is converted to a wider column, one that is converted
+	// to a narrower or 32 bit column (the two scratch pools of the typed writer),
+	// two arbitrary ones; then the rare logical types
+	rng := rand.New(rand.NewSource(seed*131 + int64(g)))
+	pick := func(pred func(cb *intCombo) bool) *intCombo {
+		var c []*intCombo
+		for i := range intCombos {
+			if pred(&intCombos[i]) {
+				c = append(c, &intCombos[i])
+			}
+		}
+		return c[rng.Intn(len(c))]
+	}
+	for _, cb := range []*intCombo{
+		pick(func(*intCombo) bool { return true }),
+		pick(func(cb *intCombo) bool { return cb.Phys == 64 && cb.Bits < 64 }),
+		pick(func(cb *intCombo) bool { return cb.Phys == 32 && cb.Bits != 32 }),
+		pick(func(*intCombo) bool { return true }),
+	} {
+		f := cb.mk(spec{Family: "ints", Combo: cb.Name, Case: gen.Case{Seed: rng.Int63(), NRows: 300}}, cb)
+		iw := f.mk(io.Discard)
+		_ = iw.WriteIdx(0, 300)
+		_ = iw.Close()
+	}
+	lf := logicalFactory(spec{Family: "logical", Case: gen.Case{Seed: rng.Int63(), NRows: 40}})
+	lw := lf.mk(io.Discard)
+	_ = lw.WriteIdx(0, 40)
+	_ = lw.Close()
 }
 
 // ---------------------------------------------------------------------------
@@ -1774,6 +1866,21 @@ func variantSpecs(c *core.Ctx) []spec {
 		}
 		out = append(out, sp)
 	}
+	// every (Go integer kind x width tag) combination; the rare logical types
+	for i, cb := range intCombos {
+		sp := spec{Family: "ints", Combo: cb.Name, Case: gen.Case{Seed: 700 + c.Seed*389 + int64(i), NRows: []int{7, 64, 65, 200}[i%4]}}
+		if i%7 == 6 {
+			sp.API = "writer"
+		}
+		out = append(out, sp)
+	}
+	for i := 0; i < c.N(6, 40); i++ {
+		sp := spec{Family: "logical", Case: gen.Case{Seed: 900 + c.Seed*613 + int64(i), NRows: []int{1, 9, 70, 200}[i%4]}}
+		if i%3 == 2 {
+			sp.API = "writer"
+		}
+		out = append(out, sp)
+	}
 	out = append(out, spec{Family: "typed", API: "writer", Case: gen.Case{Seed: 2000, NRows: 120}})
 	out = append(out, spec{Family: "sorting", Case: gen.Case{Seed: 2001, NRows: 150}})
 	out = append(out, spec{Family: "sorting", Case: gen.Case{Seed: 2002, NRows: 150}, Dedupe: true, Keys: 40, Desc: true})
@@ -1974,7 +2081,7 @@ func livesFor(rng *rand.Rand, f *factory, refLen int, kinds []string) []life {
 var allKinds = []string{"closed", "closed", "flushes", "abandon", "sinkfail", "rowgroup", "kv", "empty"}
 
 func runC17(c *core.Ctx) {
-	c.Res.Rule = "files are produced from (schema, rows, options, write/flush history) given by gen.Case (all codecs, encodings, page versions, nested schemas, dictionaries, bloom filters, statistics, key/value maps, write buffer sizes) and by typed structs: optional non-pointer fields holding -0.0/NaN/zero values, chosen dictionary index patterns, 16-byte values, and one optional field of EVERY Go kind that has a null index function (bool, all integer widths, floats, string, []byte, byte arrays, Int96, time.Time, struct, pointers, slices, map) holding the values at the boundary between null and non-null (zero; exactly one non-zero byte at each position; extremes; -0.0, NaN; nil / empty / empty-with-a-pointer / non-empty slices and strings; nil pointer / pointer to zero); each scenario compares sha256(reference: fresh writer) with sha256(writer reused through Reset after 1-3 previous lives of kinds closed/flushes/abandon/sinkfail/rowgroup/kv (new keys and overrides of CONFIGURED keys in four orders)/empty; SortingWriter: keeping or dropping duplicates, 1-40 distinct keys shared by the file and the previous lives, either direction, and the additional life bufferfail = the pool buffer of the sorted chunks fails after n bytes when written or when read back | buffer reused through Reset | other goroutine | after pool churn | poisoned pools | GOMAXPROCS 1 vs many | n-th repetition); the file under test may itself override a configured key / add a key; every build variant writes the digests of one fixed case list which the later variants compare with. Non-trivial = the file under test has at least 2 rows; distinct by the JSON of the scenario."
+	c.Res.Rule = "files are produced from (schema, rows, options, write/flush history) given by gen.Case (all codecs, encodings, page versions, nested schemas, dictionaries, bloom filters, statistics, key/value maps, write buffer sizes) and by typed structs: optional non-pointer fields holding -0.0/NaN/zero values, chosen dictionary index patterns, 16-byte values, and one optional field of EVERY Go kind that has a null index function (bool, all integer widths, floats, string, []byte, byte arrays, Int96, time.Time, struct, pointers, slices, map) holding the values at the boundary between null and non-null (zero; exactly one non-zero byte at each position; extremes; -0.0, NaN; nil / empty / empty-with-a-pointer / non-empty slices and strings; nil pointer / pointer to zero); each scenario compares sha256(reference: fresh writer) with sha256(writer reused through Reset after 1-3 previous lives of kinds closed/flushes/abandon/sinkfail/rowgroup/kv (new keys and overrides of CONFIGURED keys in four orders)/empty; SortingWriter: keeping or dropping duplicates, 1-40 distinct keys shared by the file and the previous lives, either direction, and the additional life bufferfail = the pool buffer of the sorted chunks fails after n bytes when written or when read back | buffer reused through Reset | other goroutine | after pool churn | poisoned pools | GOMAXPROCS 1 vs many | n-th repetition | second production after unrelated writes of the same goroutine: other writers of the same configuration running 1-3 lives, generated schemas, OTHER integer combinations in batches of 300 rows, the logical types); two further typed families, ints = all 90 combinations of a Go integer kind with no / an int(n) / a uint(n) tag (one struct type each: required, optional, pointer, list field; boundary and random values), every combination in every run through history, reset, and in rotation the reflection path and a reused buffer, the stored values compared with the model (Go value mod 2^physical width); logical = GEOMETRY/GEOGRAPHY (geom.T and raw WKB, both byte orders, XY/XYZ/XYM/XYZM, points, line strings, polygons, multi points, empty geometries, NaN, malformed WKB; the two halves of the file and the previous lives draw from independent profiles Z allowed / M allowed / dirty), VARIANT, INTERVAL, DECIMAL on INT32/INT64/FIXED, DATE, TIME, TIMESTAMP in every unit, JSON, ENUM, UUID strings, with the geospatial statistics of every column chunk compared with the accumulator model on the values stored in that row group; the file under test may itself override a configured key / add a key; every build variant writes the digests of one fixed case list which the later variants compare with. Non-trivial = the file under test has at least 2 rows; distinct by the JSON of the scenario."
 	e := &env{c: c, refs: map[string]outcome{}}
 	savedRand := crand.Reader
 	defer func() { crand.Reader = savedRand }()
@@ -2134,6 +2241,77 @@ func runC17(c *core.Ctx) {
 		e.run(sc, "reset/sorting-dup/"+lives[len(lives)-1].Kind)
 	}
 
+	// ---- every (Go integer kind x width tag) combination of the typed writer ----
+	// exhaustive over the 90 combinations in every run: unrelated writes between two
+	// productions (history), a reused writer, and on a rotating part the reflection
+	// path and a reused buffer
+	for i := range intCombos {
+		cb := &intCombos[i]
+		sp := spec{Family: "ints", Combo: cb.Name, Case: gen.Case{Seed: c.Seed*7561 + int64(i), NRows: []int{1, 8, 60, 250}[c.Rng.Intn(4)]}, Extra: 16 + c.Rng.Intn(200)}
+		f, ok := build(sp)
+		if !ok {
+			continue
+		}
+		ref := e.ref(f)
+		if ref.err != "" {
+			c.Violation("ints-reference-error", fmt.Sprintf("%s: a fresh writer fails: %s", cb.Name, ref.err), scenario{Spec: sp, Mode: "repeat", Count: 1})
+			continue
+		}
+		e.run(scenario{Spec: sp, Mode: "history", Lives: livesFor(c.Rng, f, len(ref.bytes), []string{"closed", "flushes", "abandon", "rowgroup"})}, "history/ints")
+		sc := scenario{Spec: sp, Mode: "reset", Lives: livesFor(c.Rng, f, len(ref.bytes), allKinds)}
+		e.run(sc, "reset/ints/"+sc.Lives[0].Kind)
+		if i < 2 {
+			c.Sample(sc)
+		}
+		if i%3 == int(c.Seed%3) {
+			spw := sp
+			spw.API = "writer"
+			if fw, ok := build(spw); ok {
+				if rw := e.ref(fw); rw.err == "" {
+					e.run(scenario{Spec: spw, Mode: "reset", Lives: livesFor(c.Rng, fw, len(rw.bytes), allKinds)}, "reset/ints-writer")
+				}
+			}
+		}
+		if i%5 == int(c.Seed%5) {
+			e.run(scenario{Spec: sp, Mode: "buffer", Prev: 1 + c.Rng.Intn(3), Sort: c.Rng.Intn(2) == 0, Count: c.Rng.Intn(2)}, "buffer/ints")
+		}
+	}
+
+	// ---- the rare logical types ----
+	nLog := c.N(48, 500)
+	for i := 0; i < nLog; i++ {
+		sp := spec{Family: "logical", Case: gen.Case{Seed: c.Seed*611953 + int64(i), NRows: []int{0, 1, 8, 60, 250}[c.Rng.Intn(5)]}, Extra: 16 + c.Rng.Intn(200)}
+		if i%4 == 1 {
+			sp.API = "writer"
+		}
+		if c.Rng.Intn(4) == 0 {
+			sp.KV = 1 + c.Rng.Intn(4)
+		}
+		if c.Rng.Intn(3) == 0 {
+			sp.WBuf = []int{-1, 1, 64, 1000}[c.Rng.Intn(4)]
+		}
+		f, ok := build(sp)
+		if !ok {
+			continue
+		}
+		ref := e.ref(f)
+		if ref.err != "" {
+			c.Res.Buckets["skipped/reference-error"]++
+			continue
+		}
+		sc := scenario{Spec: sp, Mode: "reset", Lives: livesFor(c.Rng, f, len(ref.bytes), allKinds)}
+		e.run(sc, "reset/logical/"+sc.Lives[0].Kind)
+		if i < 2 {
+			c.Sample(sc)
+		}
+		if i%4 == 0 {
+			e.run(scenario{Spec: sp, Mode: "buffer", Prev: 1 + c.Rng.Intn(3), Sort: c.Rng.Intn(2) == 0, Count: c.Rng.Intn(2)}, "buffer/logical")
+		}
+		if i%4 == 2 {
+			e.run(scenario{Spec: sp, Mode: "history", Lives: livesFor(c.Rng, f, len(ref.bytes), []string{"closed", "flushes", "abandon", "rowgroup"})}, "history/logical")
+		}
+	}
+
 	// ---- (c), (d): goroutines, pools, GOMAXPROCS, repetition ----
 	nEnv := c.N(24, 200)
 	for i := 0; i < nEnv; i++ {
@@ -2143,10 +2321,18 @@ func runC17(c *core.Ctx) {
 		} else {
 			sp = spec{Family: "gen", Case: gen.Case{Seed: c.Seed*613 + int64(i), NRows: []int{5, 40, 300, 700}[c.Rng.Intn(4)], MaxDepth: 1 + c.Rng.Intn(3), MaxFields: 1 + c.Rng.Intn(5), Codecs: allCodecs, NullBias: c.Rng.Intn(8)}, KV: c.Rng.Intn(4)}
 		}
-		mode := []string{"goroutine", "churn", "gomaxprocs", "poison", "repeat"}[i%5]
+		mode := []string{"goroutine", "churn", "gomaxprocs", "poison", "repeat", "history"}[i%6]
 		sc := scenario{Spec: sp, Mode: mode}
 		if mode == "repeat" {
 			sc.Count = 50
+		}
+		if mode == "history" {
+			sc.Spec.Extra = 20 + c.Rng.Intn(100)
+			f, ok := build(sc.Spec)
+			if !ok {
+				continue
+			}
+			sc.Lives = livesFor(c.Rng, f, 1000, []string{"closed", "flushes", "abandon", "rowgroup"})
 		}
 		e.run(sc, "environment/"+mode)
 	}
@@ -2174,6 +2360,10 @@ func runC17(c *core.Ctx) {
 		}
 	}
 
+	c.Note("geospatial statistics of %d column chunks compared with the model", e.geoChunks)
+	for msg, n := range panickedLives {
+		c.Note("%d previous lives ended in a panic of the library (treated as failed lives): %s", n, msg)
+	}
 	for msg, n := range buildPanics {
 		// generated schemas may be refused by the library; the typed families must always build
 		c.Note("%d specs could not be built: %s", n, core.Trunc(msg, 200))
